@@ -198,6 +198,23 @@ def regex_lengths(regexes: gio.RegexTable, word) -> list:
 # the worker
 # ------------------------------------------------------------------------------------------------
 
+class SpecTimeout(Exception):
+    pass
+
+
+def parse_spec_guarded(spec: str, cap_s: float = 5.0):
+    """the real front end under an alarm: `Grammar.prime()` does not return for an unproductive grammar"""
+    def on_alarm(signum, frame):
+        raise SpecTimeout()
+    old = signal.signal(signal.SIGALRM, on_alarm)
+    signal.setitimer(signal.ITIMER_REAL, cap_s)
+    try:
+        return gio.parse_spec(spec)
+    finally:
+        signal.setitimer(signal.ITIMER_REAL, 0)
+        signal.signal(signal.SIGALRM, old)
+
+
 def word_of(wj: dict):
     if wj["kind"] == "bytes":
         return bytes(wj["cells"])
@@ -256,7 +273,7 @@ def real_case(task: dict) -> dict:
     t0 = time.time()
     res: dict[str, Any] = {"id": task.get("id")}
     try:
-        grammar, _cons = gio.parse_spec(task["spec"])
+        grammar, _cons = parse_spec_guarded(task["spec"], 10.0)
     except Exception as e:  # noqa
         res["status"] = f"spec_error:{type(e).__name__}"
         return res
@@ -326,7 +343,51 @@ def real_case(task: dict) -> dict:
         except gio.NotModelled as e:
             res["status"] = f"not_modelled:{e}"
     _reset()
+    if task.get("modes"):
+        res["modes"] = other_modes(task, word, start)
     return res
+
+
+def other_modes(task: dict, word, start: str) -> dict:
+    """first-tree request and prefix (INCOMPLETE) request on fresh grammar objects, each under its own alarm"""
+    from fandango.language.grammar import ParsingMode
+    out = {}
+
+    def on_alarm(signum, frame):
+        raise _Timeout()
+
+    for name in ("first", "prefix"):
+        try:
+            grammar, _ = gio.parse_spec(task["spec"])
+        except Exception as e:  # noqa
+            out[name] = f"spec_error:{type(e).__name__}"
+            continue
+        _reset()
+        old = signal.signal(signal.SIGALRM, on_alarm)
+        signal.setitimer(signal.ITIMER_REAL, float(task.get("cap_s", 5.0)))
+        st = "ok"
+        try:
+            try:
+                if name == "first":
+                    grammar.parse(word, start=start)
+                else:
+                    n = 0
+                    for _t in grammar.parse_forest(word, start=start, mode=ParsingMode.INCOMPLETE):
+                        n += 1
+                        if n >= int(task.get("max_trees", 64)):
+                            st = "truncated"
+                            break
+            except _Timeout:
+                st = "timeout"
+            except Exception as e:  # noqa
+                st = f"exc:{type(e).__name__}"
+        finally:
+            signal.setitimer(signal.ITIMER_REAL, 0)
+            signal.signal(signal.SIGALRM, old)
+        out[name] = st
+        out[name + "_adds"] = _Reg.adds
+    _reset()
+    return out
 
 
 # ------------------------------------------------------------------------------------------------
